@@ -1,6 +1,10 @@
 From Coq Require Import extraction.Extraction extraction.ExtrOcamlBasic.
-From TU Require Import Base C14_Model.
+From TU Require Import Base C14_Model C14_Seam.
 Definition run := run_C14.
 Definition check := check_C14.
-Definition agree (inp m i : val) : bool := val_eqb m i.
+(** exact on the outputs; in grapheme mode additionally: the cluster lists of the text and of the
+    corrupted text are [segment] of their concatenation ([uax29_agree]), the harness' safety flag
+    is the model's [corrupt_safe], and inside the domain of [corrupt_labels_u] the KF1 class flag
+    is off ([xcheck]) *)
+Definition agree (inp m i : val) : bool := agree_C14 inp m i.
 Extraction "model.ml" run check agree.
